@@ -323,6 +323,16 @@ void clear_values() { g_values.clear(); }
 static size_t g_decomp_clamp = 0;
 void set_decomp_clamp(size_t bytes) { g_decomp_clamp = bytes; }
 size_t decomp_clamp() { return g_quiet > 0 ? 0 : g_decomp_clamp; }
+static int g_compress_fail_at = -1;
+static int g_compress_calls = 0;
+static uint64_t g_compress_failures = 0;
+void set_compress_fail_at(int call) { g_compress_fail_at = call; g_compress_calls = 0; g_compress_failures = 0; }
+int compress_fail_at() {
+    if (g_quiet > 0 || g_compress_fail_at < 0) { return -1; }
+    return g_compress_fail_at - g_compress_calls;   // 0 = this call fails
+}
+void count_compress_call(bool failed) { ++g_compress_calls; if (failed) { ++g_compress_failures; } }
+uint64_t compress_failures() { return g_compress_failures; }
 
 // ---------------------------------------------------------------------------------------------
 // result line
